@@ -105,6 +105,8 @@ def generic_space(rng, nprng, sym, dmax=4, complex_ops=True):
         fermionic = rng.choice((False, True, True) + ((tuple(rng.random() < 0.5 for _ in range(k)),) if k > 1 else ()))
         if isinstance(fermionic, tuple) and not any(fermionic):
             fermionic = False
+        if sym == "Z3":
+            fermionic = False      # parity is not a function of a Z3 charge ((-1)^t is no character of Z3): no consistent grading
         while True:
             nsec = rng.randint(2, 3)
             ts = rng.sample(GENERIC_CHARGES[sym], min(nsec, len(GENERIC_CHARGES[sym])))
